@@ -340,6 +340,15 @@ Perm3Calls ==
     \cup {[C0 EXCEPT !.op = "remove", !.p = p] : p \in {PS, PL}}
     \cup {[C0 EXCEPT !.op = "rename", !.p = PS, !.q = AbsP(<<"w", "d", "t">>)]}
     \cup {[C0 EXCEPT !.op = "readdir", !.p = PS], [C0 EXCEPT !.op = "walk", !.p = PD]}
+    \* a callback that answers SkipDir when it is handed an error
+    \cup {[C0 EXCEPT !.op = "walk", !.p = p, !.flag = <<"ErrSkip">>] : p \in {WorkP, PD, PS, PSB}}
+\* Profile "perm4" (C14): the enumeration calls alone on the perm3 trees - directories that cannot be listed or searched
+Perm4Calls ==
+    {[C0 EXCEPT !.op = "walk", !.p = p, !.flag = f] : p \in {WorkP, PD, PS, PSB}, f \in {<<>>, <<"ErrSkip">>}}
+    \cup {[C0 EXCEPT !.op = "walk", !.p = WorkP, !.n = k, !.flag = <<a>>] : k \in 1..5, a \in {"SkipDir", "SkipAll"}}
+    \cup {[C0 EXCEPT !.op = "glob", !.p = p] : p \in {AbsP(<<"w", "*">>), AbsP(<<"w", "d", "*">>), AbsP(<<"w", "*", "*">>), AbsP(<<"w", "d", "s", "*">>),
+                                                     AbsP(<<"w", "*", "*", "*">>), AbsP(<<"w", "d", "s", "b">>), AbsP(<<"w", "d", "?", "b">>)}}
+    \cup {[C0 EXCEPT !.op = o, !.p = p] : o \in {"exists", "direxists", "isdir", "isempty", "readdir"}, p \in {PD, PS, PSB, PF}}
 
 \* a call on a two-component path whose first component does not exist tells nothing that the
 \* same call with the other second component does not: keep one representative
@@ -366,8 +375,9 @@ Calls(s) ==
                  [] Profile = "perm1" -> Perm1Calls
                  [] Profile = "perm2" -> Perm2Calls
                  [] Profile = "perm3" -> Perm3Calls
+                 [] Profile = "perm4" -> Perm4Calls
                  [] OTHER -> NsCalls IN
-    IF Profile \in {"symq", "symchain", "enum", "perm1", "perm2", "perm3", "dirh"} THEN all ELSE {c \in all : ~Pruned(s, c)}
+    IF Profile \in {"symq", "symchain", "enum", "perm1", "perm2", "perm3", "perm4", "dirh"} THEN all ELSE {c \in all : ~Pruned(s, c)}
 
 EdgeFile == IF "VERIF_EDGES" \in DOMAIN IOEnv THEN IOEnv.VERIF_EDGES ELSE ""
 GenImpl == IF "VERIF_IMPL" \in DOMAIN IOEnv THEN IOEnv.VERIF_IMPL ELSE "none"
@@ -397,16 +407,16 @@ Init ==
          [] Profile = "symchain" -> \E n \in ChainLens : hist = ChainHist(n) /\ st = RunCalls(InitSt, ChainHist(n))
          [] Profile = "dirh" -> hist = DirhHist /\ st = RunCalls(InitSt, DirhHist)
          [] Profile \in {"perm1", "perm2"} -> \E cfg \in PermCfgs : hist = PermHist(cfg) /\ st = RunCalls(InitSt, PermHist(cfg))
-         [] Profile = "perm3" -> \E cfg \in Perm3Cfgs : hist = Perm3Hist(cfg) /\ st = RunCalls(InitSt, Perm3Hist(cfg))
+         [] Profile \in {"perm3", "perm4"} -> \E cfg \in Perm3Cfgs : hist = Perm3Hist(cfg) /\ st = RunCalls(InitSt, Perm3Hist(cfg))
          [] OTHER -> st = InitFor /\ hist = <<>>
 
 \* configured profiles issue exactly one call from each initial state
-Budget == IF Profile \in {"symq", "symchain", "perm1", "perm2", "perm3"} THEN 1 ELSE MaxLen
+Budget == IF Profile \in {"symq", "symchain", "perm1", "perm2", "perm3", "perm4"} THEN 1 ELSE MaxLen
 
 EmitHist == IF Profile = "handles" THEN HandlesHist \o hist ELSE hist
 
 Next ==
-    /\ (IF Profile \in {"symq", "symchain", "perm1", "perm2", "perm3"} THEN last.call.op = ""
+    /\ (IF Profile \in {"symq", "symchain", "perm1", "perm2", "perm3", "perm4"} THEN last.call.op = ""
         ELSE IF Profile = "nsseed" THEN Len(hist) < MaxLen + 5 /\ (last.call.op = "" \/ Len(hist) < 4 + MaxLen)
         ELSE IF Profile = "dirh" THEN Len(hist) < MaxLen + 3
         ELSE Len(hist) < MaxLen)
